@@ -26,7 +26,7 @@ RULE = ("A: every period of each frequency in the year range x offset table, non
         "15 mixed-frequency operations")
 MANIFEST_ENTRY = dict(level="model_checking", design="DESIGN.md section 4 / C09",
    technique="explicit-state BFS over Span operation histories vs integer-range reference model + exhaustive enumeration of every period of the calendar",
-   text="Every period of every frequency over the stated year range (quick 1800-2200, daily 1896-2104; thorough years 1-9998, daily 1583-2420) is checked against a datetime-only reference calendar for order, arithmetic, hashing, tiling, accessors and keyword shifts with 129 offsets each; the Span API is explored as a state machine (all (start,end,step) of a 7-period window per frequency + contextual forms, BFS depth 2/3, every transition compared with a Python-range reference and checked for isolation); all mixed-frequency operations must raise.",
+   text="Every period of every frequency over the stated year range (quick 1800-2200, daily 1896-2104; thorough years 1-9998, daily 1583-2420) is checked against a datetime-only reference calendar for order, arithmetic, hashing, tiling and its inverse (every month's first/15th/last day inside a tile builds that period through from_ymd, from_iso_string, from_python_date and refrequent; conversion to every lower frequency), accessors and keyword shifts with 129 offsets each; the Span API is explored as a state machine (all (start,end,step) of a 7-period window per frequency + contextual forms, BFS depth 2/3, every transition compared with a Python-range reference and checked for isolation); all mixed-frequency operations must raise.",
    note="Trusted: Python datetime/calendar, the 40-line reference in ref/calendar.py. Not covered: years outside the range, weekly frequency, negative-step slicing, span-minus-period.")
 ASSUMPTIONS = ["Python datetime/calendar are a correct proleptic Gregorian calendar",
                "negative-step slicing of a Span and `span - period` are not asserted (not in the statement)"]
